@@ -376,7 +376,7 @@ def _check_plot(case):
             break
         x, y = float(t[0]), float(t[1])
         want = lowx + i * (highx - lowx) / steps
-        if not abs(x - want) <= 4 * 2.3e-16 * max(abs(want), abs(highx)):
+        if not abs(x - want) <= 4 * 2.3e-16 * max(abs(want), abs(highx), abs(lowx)):
             v.append(("plot:x", "row %d x = %r, expected lowx + i*(highx-lowx)/steps = %r" % (i, x, want)))
             break
         fy = f(x)
